@@ -230,7 +230,7 @@ def stage_probe(p):
         lines.append(f"fn probe_{k}() {{ let _ = {refmap.rust_path(s)} {{")
         k += 1
         for f, m in zip(s["fields"], e["members"]):
-            ty = refmap.type_expr(m, p.located, p.by_comp)
+            ty = refmap.type_expr(m, p.located, p.by_comp, e["comp"])
             if ty is None:
                 skipped += 1
                 lines.append(f"    {f['name']}: Default::default(),")
@@ -535,7 +535,7 @@ def check_generic(prop, tier, cfgs, n_quick, n_thorough, sigfun, stages, level="
 
 def core_cfgs(q):
     return [
-        ("core", gen.cfg_with(files=(1, 3), quarantine=q, p_twin=0.3, own_ns_default=0.3)),
+        ("core", gen.cfg_with(files=(1, 3), quarantine=q, p_twin=0.3, own_ns_default=0.3, p_self_member=0.25)),
         ("core-many-files", gen.cfg_with(files=(3, 4), quarantine=q, complex_per_file=(1, 3), own_ns_default=0.3)),
         ("core-keywords", gen.cfg_with(files=(1, 2), keyword_rate=0.35, quarantine=q)),
         ("wsdl", gen.cfg_with(files=(1, 3), wsdl=True, quarantine=q, complex_per_file=(0, 2), simple_per_file=(0, 2), p_inline_schemas=0.4)),
@@ -590,7 +590,7 @@ def profiles(q):
         "restr": gen.cfg_with(files=(1, 3), wsdl=True, p_inline_schemas=0.3, quarantine=q, simple_per_file=(3, 6), complex_per_file=(1, 3), avoid_nested_same_name=True,
                               elements_per_file=(0, 1), p_simple_derived=0.5, headers=(0, 2), ops=(1, 3), p_oneway=0.3),
         "ext": gen.cfg_with(files=(1, 3), quarantine=q, p_ext=0.75, complex_per_file=(3, 6), simple_per_file=(0, 2),
-                            elements_per_file=(0, 2), p_cross_file=0.6, own_ns_default=0.3, p_attrs_only_type=0.25),
+                            elements_per_file=(0, 2), p_cross_file=0.6, own_ns_default=0.3, p_attrs_only_type=0.25, p_self_member=0.2),
         # extension forests spread over the inline schemas of one WSDL (bases in a schema that comes later in the document)
         "ext-wsdl": gen.cfg_with(files=(2, 3), wsdl=True, p_inline_schemas=1.0, quarantine=q, p_ext=0.8, complex_per_file=(2, 4), simple_per_file=(0, 1),
                                  elements_per_file=(0, 1), p_cross_file=0.7, ops=(1, 2), attr_named_simple=False, avoid_nested_same_name=True),
@@ -890,10 +890,25 @@ def stage_runtime(p, values_per_struct=4, with_docs=True):
     cases = []
     meta = {}
     unbuildable = 0
+    def reaches_recursive(comp, seen=()):
+        # a type with a member of its own type, or one that contains such a type: yaserde 0.12 cannot read these back (a child
+        # element named like a member of the child's struct makes its derived deserializer loop), bare or wrapped alike — C19
+        # says the same about its self-referential probe. They are compiled and shape-checked (C01, C02), not run.
+        if any(comp is c for c in seen):
+            return True
+        for m in gen.flat_members(comp):
+            kind, t = refmap.member_target(m)
+            if kind != "builtin" and t.kind != "simple" and reaches_recursive(t, seen + (comp,)):
+                return True
+        return False
+
     for e in p.expected:
         if e["members"] is None:
             continue
         comp = e["comp"]
+        if reaches_recursive(comp):
+            p.stats["excluded:self-referential-type-not-run"] = p.stats.get("excluded:self-referential-type-not-run", 0) + 1
+            continue
         for k, v in enumerate(sampler.values_for(comp, values_per_struct)):
             cid = f"v{len(cases)}"
             constrained = e["kind"] == "anon-element"
